@@ -25,7 +25,9 @@ RULE = ("(a) generated-function correspondence as in C05; (b) physicality search
         "on fock-pure / fock-mixed; New/Del histories; multi-component bosonic states (Catstate complex / real, GKP, Fock) through gates, channels and measurements; an "
         "exactly representable Fock family (number states / random kets / density matrices below the cutoff, passive + Kerr gates, loss incl. T = 0, 1, mid-circuit "
         "preparations, post-selected photon counting, New/Del, 9-10 modes at cutoff 2) where trace, photon number and purity must be exact; a low-energy Fock family at a "
-        "large cutoff where every command may lose trace only in proportion to the population next to the cutoff; hbar-invariance of photon numbers and purity; vacuum "
+        "large cutoff where every command may lose trace only in proportion to the population next to the cutoff; single operations on number states at a small and a "
+        "large cutoff (the small state must be a block of the large one); measurements of every kind on strongly two-mode-squeezed states; entangled kets with one mode "
+        "deleted / re-prepared / measured; reduced states requested through the modes run option; hbar-invariance of photon numbers and purity; vacuum "
         "anchors. Checks: cov symmetric and cov + i hbar/2 Omega >= 0, dm Hermitian PSD trace <= 1, weights sum to 1, Q function real and non-negative, purity <= 1 and "
         "preserved by unitaries, total mean photon number conserved by passive (and Kerr) gates and not increased by loss, mean_photon / trace / purity consistent with "
         "cov / dm; non-trivial = >= 2 modes and a command on a mode other than 0")
@@ -661,9 +663,9 @@ def gen_measure_case(rng, backend):
 
 def search_circuits(ctx):
     rng = ctx.rng
-    for backend, cnt in ctx.budget({"gaussian": 40, "bosonic": 70}, {"gaussian": 400, "bosonic": 700}).items():
+    for backend, cnt in ctx.budget({"gaussian": 60, "bosonic": 100}, {"gaussian": 500, "bosonic": 800}).items():
         run_family(ctx, lambda: gen_measure_case(rng, backend), cnt, lambda d: "phys-%s-measure" % d["backend"], lambda d: True)
-    per = ctx.budget({"gaussian": 260, "bosonic": 220, "fock-pure": 16, "fock-mixed": 14},
+    per = ctx.budget({"gaussian": 320, "bosonic": 280, "fock-pure": 18, "fock-mixed": 16},
                      {"gaussian": 2600, "bosonic": 2200, "fock-pure": 140, "fock-mixed": 110})
     for backend, cnt in per.items():
         run_family(ctx, lambda: gen_circuit_case(rng, backend), cnt,
@@ -761,7 +763,7 @@ def gen_bosonic_ng_case(rng):
 
 def search_bosonic_nongauss(ctx):
     rng = ctx.rng
-    run_family(ctx, lambda: gen_bosonic_ng_case(rng), ctx.budget(70, 700),
+    run_family(ctx, lambda: gen_bosonic_ng_case(rng), ctx.budget(100, 800),
                lambda d: "bos-ng-%s-%s" % (d["mode"], "+".join(sorted(set(c[0] + (":" + c[1][3] if c[0] == "Catstate" else "") for c in d["pre"] if c[0] in ("Catstate", "GKP", "Fock"))))),
                lambda d: True)
 
@@ -921,9 +923,9 @@ def gen_fock_reduce_case(rng):
 
 def search_fock_exact(ctx):
     rng = ctx.rng
-    run_family(ctx, lambda: gen_fock_reduce_case(rng), ctx.budget(40, 400),
+    run_family(ctx, lambda: gen_fock_reduce_case(rng), ctx.budget(60, 500),
                lambda d: "fock-exact-%s" % d["mode"], lambda d: True)
-    run_family(ctx, lambda: gen_fock_exact_case(rng), ctx.budget(110, 1100),
+    run_family(ctx, lambda: gen_fock_exact_case(rng), ctx.budget(150, 1200),
                lambda d: "fock-exact-%s-%s" % (d["backend"], d["mode"]), lambda d: True)
     run_family(ctx, lambda: gen_fock_exact_case(rng, big=True, two_mode=not ctx.quick), ctx.budget(1, 6),
                lambda d: "fock-exact-%d-modes" % d["n"], lambda d: True)
@@ -1063,7 +1065,7 @@ def eval_fock_block(d):
 def search_fock_block(ctx):
     rng = ctx.rng
     done = tries = 0
-    want = ctx.budget(90, 900)
+    want = ctx.budget(110, 900)
     while done < want and tries < 3 * want:
         tries += 1
         d = gen_fock_block_case(rng)
@@ -1078,7 +1080,7 @@ def search_fock_block(ctx):
 
 def search_fock_trunc(ctx):
     rng = ctx.rng
-    run_family(ctx, lambda: gen_fock_trunc_case(rng), ctx.budget(70, 700),
+    run_family(ctx, lambda: gen_fock_trunc_case(rng), ctx.budget(100, 800),
                lambda d: "fock-trunc-%s-%d" % (d["backend"], d["n"]), lambda d: True)
 
 
